@@ -247,7 +247,7 @@ func (c *wsConnection) run() {
 
 	// If we're running in graphql-ws mode, create a timer that will trigger a
 	// keep alive message every interval
-	if (c.conn.Subprotocol() == "" || c.conn.Subprotocol() == graphqlwsSubprotocol) && c.KeepAlivePingInterval != 0 {
+	if (c.conn.Subprotocol() == "" || c.conn.Subprotocol() == graphqlwsSubprotocol) && c.KeepAlivePingInterval > 0 {
 		c.mu.Lock()
 		c.keepAliveTicker = time.NewTicker(c.KeepAlivePingInterval)
 		c.mu.Unlock()
@@ -257,7 +257,7 @@ func (c *wsConnection) run() {
 
 	// If we're running in graphql-transport-ws mode, create a timer that will trigger a
 	// just a pong message every interval
-	if c.conn.Subprotocol() == graphqltransportwsSubprotocol && c.PongOnlyInterval != 0 {
+	if c.conn.Subprotocol() == graphqltransportwsSubprotocol && c.PongOnlyInterval > 0 {
 		c.mu.Lock()
 		c.pongOnlyTicker = time.NewTicker(c.PongOnlyInterval)
 		c.mu.Unlock()
@@ -267,7 +267,7 @@ func (c *wsConnection) run() {
 
 	// If we're running in graphql-transport-ws mode, create a timer that will
 	// trigger a ping message every interval and expect a pong!
-	if c.conn.Subprotocol() == graphqltransportwsSubprotocol && c.PingPongInterval != 0 {
+	if c.conn.Subprotocol() == graphqltransportwsSubprotocol && c.PingPongInterval > 0 {
 		c.mu.Lock()
 		c.pingPongTicker = time.NewTicker(c.PingPongInterval)
 		c.mu.Unlock()
